@@ -84,7 +84,14 @@ def check_program(files, root, mclass, where, res, via_graph=False, count=True, 
         repeat = 11          # the same compiler object is asked again and again
         if count:
             res.count('class:same-compiler-object-asked-12-times')
-    outcome, exc = run_program(files, root, via_graph, repeat=repeat)
+    from ..stream import cpu_budget, TooExpensive
+    try:
+        with cpu_budget(30.0):       # these programs compile in milliseconds; a run-away compilation is skipped, not judged
+            outcome, exc = run_program(files, root, via_graph, repeat=repeat)
+    except TooExpensive:
+        if count:
+            res.count('skipped:too-expensive')
+        return None, label
     if count and label == 'erroneous' and (mclass in ('x-delete', 'delete', 'swap')):
         res.count('erroneous:compiled-twice')
     if count and via_graph:
